@@ -386,3 +386,41 @@ func verifModel_sort_Strings(x []string) {
 		}
 	}
 }
+
+// ---- math.Max / math.Min (the portable Go versions; amd64 uses assembly) ----
+
+func verifModel_math_Max(x, y float64) float64 {
+	switch {
+	case x > 1.79769313486231570814527423731704356798070e+308 || y > 1.79769313486231570814527423731704356798070e+308:
+		return verifInf()
+	case x != x || y != y:
+		return verifNaN()
+	case x == 0 && x == y:
+		if verifSignbit(x) {
+			return y
+		}
+		return x
+	}
+	if x > y {
+		return x
+	}
+	return y
+}
+
+func verifModel_math_Min(x, y float64) float64 {
+	switch {
+	case x < -1.79769313486231570814527423731704356798070e+308 || y < -1.79769313486231570814527423731704356798070e+308:
+		return -verifInf()
+	case x != x || y != y:
+		return verifNaN()
+	case x == 0 && x == y:
+		if verifSignbit(x) {
+			return x
+		}
+		return y
+	}
+	if x < y {
+		return x
+	}
+	return y
+}
